@@ -203,7 +203,8 @@ def tlc(module, cfg, pid, workers=8, timeout=900, simulate=None, depth=None, cov
             raise ToolError("TLC timed out on %s/%s after %ss" % (module, cfg, timeout))
     if rc not in (0, 124) and not res["violated"]:
         # rc 12 = invariant violation, 13 = property; others are tool problems
-        if res["error"] is None or "violated" not in res["out"]:
+        # a rejected trace (POSTCONDITION false, rc 10) is a verdict, not a tool failure: tlc_trace reads it
+        if "TRACE-REJECTED" not in res["out"] and (res["error"] is None or "violated" not in res["out"]):
             sys.stderr.write(res["out"][-5000:] + "\n")
             raise ToolError("TLC failed on %s/%s rc=%s" % (module, cfg, rc))
     log("TLC %s/%s: %d generated, %d distinct, depth %d, %.1fs%s" % (
